@@ -117,6 +117,21 @@ def run(ctx):
             except Exception as e:  # noqa
                 a = b = None
                 err = 'reading from a UTF-8 file raises %s' % type(e).__name__
+            if err is None and fst['cases'] % 7 == 0 and any(ord(ch) > 127 for ch in text[:20000]):
+                import locale
+                from unittest import mock
+                for enc in ('ISO-8859-1', 'cp1252', 'ISO-8859-15'):
+                    try:
+                        with mock.patch.object(locale, 'getpreferredencoding', lambda do_setlocale=True, _e=enc: _e), \
+                                mock.patch.object(locale, 'getencoding', lambda _e=enc: _e, create=True):
+                            a8 = [_debcon.d2l(x) for x in debcon.get_paragraphs_data_from_file(p)]
+                            b8 = _d822.groups_t(deb822.get_paragraphs_as_field_groups_from_file(p))
+                    except Exception as e:  # noqa
+                        err = 'reading a UTF-8 file while the preferred encoding of the locale is %s raises %s' % (enc, type(e).__name__)
+                        break
+                    if a8 != a or b8 != b:
+                        err = 'a UTF-8 file is read differently when the preferred encoding of the locale is %s' % enc
+                        break
             if err is None and fst['cases'] % 5 == 0:
                 # the same through a pathlib.Path (from another working directory), and with the result read only after
                 # the file was rewritten: what is returned is about the file as it was when the function was called
